@@ -523,6 +523,7 @@ func genC19(tier string, r *rng, emit func(string)) {
 	}
 	recycleMotifs(emit)
 	intPoolMotifs(emit)
+	refusedProducts(emit)
 	// caller-owned int lists in every order (unsorted, reversed, repeated use of one tensor): axes of
 	// reductions through both spellings, transposition axes, repeat counts, reshape dimensions,
 	// contraction axes - each followed by allocations that would recycle a pooled list
